@@ -22,13 +22,15 @@ FIELD_POOL = ["x", "y", "z", "u", "w", "p", "q"]
 # ---------------------------------------------------------------------------
 
 class Cls:
-    def __init__(self, name, parent, mixin_here, own_fields, own_config, by_alias_own):
+    def __init__(self, name, parent, mixin_here, own_fields, own_config, by_alias_own, extra=None, defaults=None):
         self.name = name
         self.parent = parent            # Cls | None
         self.mixin_here = mixin_here    # lists DataClassDictMixin itself
         self.own_fields = own_fields    # [(name, alias|None, ty)]
         self.own_config = own_config    # defines its own Config class
         self.by_alias_own = by_alias_own  # None/True/False inside own Config
+        self.extra = dict(extra or {})    # further Config attributes of the own Config: name -> python source
+        self.defaults = dict(defaults or {})  # own field name -> default value AST (wide scenarios)
 
     @property
     def mixin(self):
@@ -45,6 +47,12 @@ class Cls:
             return self.by_alias_own
         return self.parent.by_alias if self.parent else None
 
+    @property
+    def all_defaults(self):
+        d = dict(self.parent.all_defaults) if self.parent else {}
+        d.update(self.defaults)
+        return d
+
     def ancestors(self):
         c = self.parent
         while c is not None:
@@ -60,9 +68,13 @@ class Scenario:
         self.sid = sid
         self.classes: list[Cls] = []
         self.roots: list = []           # root types; wrapper W<i> has the field f: roots[i]
-        self.dialect = None             # None | True | False  (serialize_by_alias of the dialect Dl)
+        self.dialect = None             # None | True | False | "unset" | "strategy" (what the dialect Dl sets)
+        self.lazy = False               # classes use Config.lazy_compilation (values stay exact-class)
+        self.wide = False               # Config options outside the Coq model (oracles only, no correspondence)
         self.module = None
         self.extra_src = ""
+        self.flags = []                 # code_generation_options shared by every class (wide scenarios)
+        self.twins = []                 # (class, look-alike class) pairs
 
     def cls(self, name) -> Cls:
         for c in self.classes:
@@ -163,10 +175,24 @@ def gen_ty(rng, names, depth, allow_union=True, allow_opt=True):
     return ("union", ms)
 
 
-def gen_scenario(rng, sid, dialect_p=0.3) -> Scenario:
+WIDE_OPTS = ["omit_none", "omit_default", "sort_keys", "forbid_extra_keys", "allow_deserialization_not_by_alias"]
+# TO_DICT_ADD_OMIT_NONE_FLAG / TO_DICT_ADD_BY_ALIAS_FLAG are left out: an outer class forwards ITS keyword default to
+# nested classes, overriding their Config (known findings of C08/C13: call-dialect-vs-flag-defaults, union-member-flags)
+WIDE_FLAGS = ["ADD_SERIALIZATION_CONTEXT"]
+
+
+def gen_scenario(rng, sid, dialect_p=0.3, wide=False) -> Scenario:
     sc = Scenario(sid)
+    sc.wide = wide
     if rng.random() < dialect_p:
-        sc.dialect = rng.choice([True, False, "unset"])
+        sc.dialect = rng.choice([True, False, "unset"]) if not wide else rng.choice(["unset", "strategy"])
+    sc.lazy = rng.random() < (0.5 if wide else 0.3)
+    if not wide and sc.dialect is not None:
+        # lazy_compilation + call dialect: the first call with `dialect=` compiles nested plain classes only into their
+        # dialect cache (known finding C15/lazy-dialect-first-call; compile ORDER is not in the Coq model): the
+        # combination is generated in the wide (oracle-only) scenarios
+        sc.lazy = False
+    sc.flags = [f for f in WIDE_FLAGS if rng.random() < 0.3] if wide else []
     n = rng.randint(2, 6)
     for i in range(n):
         name = f"K{i}"
@@ -179,16 +205,43 @@ def gen_scenario(rng, sid, dialect_p=0.3) -> Scenario:
         fnames = rng.sample(pool[:4], min(k, 4)) if rng.random() < 0.6 else rng.sample(pool, k)
         own = []
         earlier = [c.name for c in sc.classes]
+        twin = rng.choice(sc.classes) if sc.classes and rng.random() < 0.3 else None
+        if twin is not None and twin.fields:
+            # a look-alike of an earlier class: same field names (and aliases), leaf types re-drawn, so that
+            # both classes accept each other's wire form and the ORDER of union members decides
+            parent = None
+            for (fn, al, ft) in twin.fields:
+                nt = rng.choice([("int",), ("str",), ("str",)]) if ft[0] in ("int", "str", "date") else ft
+                own.append((fn, al, nt))
+            fnames = []
         for fn in fnames:
             alias = ("a_" + fn) if rng.random() < 0.35 else None
             own.append((fn, alias, gen_ty(rng, earlier, rng.choice([0, 1, 1, 2]))))
+        if twin is not None and twin.fields:
+            sc.twins.append((twin.name, name))
         mixin_here = rng.random() < 0.5 and not (parent and parent.mixin)
-        if sc.dialect is not None:
+        extra = {}
+        # Config options that only change HOW / WHEN the methods are compiled
+        if sc.lazy and rng.random() < 0.7:
+            extra["lazy_compilation"] = "True"
+        if rng.random() < 0.12:
+            extra["allow_postponed_evaluation"] = "False"
+        defaults = {}
+        if wide:
+            for o in WIDE_OPTS:
+                if rng.random() < 0.3:
+                    extra[o] = rng.choice(["True", "True", "False"])
+            for (fn, al, ft) in own:
+                if ft[0] in ("int", "str") and rng.random() < 0.4:
+                    defaults[fn] = ("int", rng.choice([0, 7])) if ft[0] == "int" else ("str", rng.choice(["", "dflt"]))
+                elif ft[0] == "opt" and rng.random() < 0.5:
+                    defaults[fn] = ("none",)
+        if sc.dialect is not None or extra or sc.flags:
             own_config = True
         else:
             own_config = rng.random() < 0.5
         by_alias_own = rng.choice([None, None, True, True, False]) if own_config else None
-        sc.classes.append(Cls(name, parent, mixin_here, own, own_config, by_alias_own))
+        sc.classes.append(Cls(name, parent, mixin_here, own, own_config, by_alias_own, extra, defaults))
     names = [c.name for c in sc.classes]
     # roots: every class that is "used" + composite shapes; some classes stay un-annotated
     ann = [nm for nm in names if rng.random() < 0.8] or names[:1]
@@ -196,6 +249,10 @@ def gen_scenario(rng, sid, dialect_p=0.3) -> Scenario:
         sc.roots.append(("data", nm))
     for _ in range(rng.randint(2, 4)):
         sc.roots.append(gen_ty(rng, ann, 3))
+    for (a, b) in sc.twins[:2]:
+        ms = [("data", a), ("data", b)] + ([rng.choice([("int",), ("date",), ("str",)])] if rng.random() < 0.4 else [])
+        rng.shuffle(ms)
+        sc.roots.append(("union", ms))
     return sc
 
 
@@ -254,7 +311,9 @@ def gen_value(rng, sc: Scenario, t, sub_p=0.0, junk_p=0.0, info=None):
                 info["junk"] = True
         if rc is not c:      # keep the tree finite: nothing unusual below an unusual instance
             sub_p, junk_p = 0.0, 0.0
-        return ("obj", rc.name, [(fn, gen_value(rng, sc, ft, sub_p, junk_p, info)) for (fn, _, ft) in rc.fields])
+        dfl = rc.all_defaults
+        return ("obj", rc.name, [(fn, dfl[fn] if fn in dfl and rng.random() < 0.4 else gen_value(rng, sc, ft, sub_p, junk_p, info))
+                                 for (fn, _, ft) in rc.fields])
     raise ValueError(t)
 
 
@@ -319,6 +378,7 @@ from datetime import date
 from typing import Dict, List, Optional, Tuple, Union
 from mashumaro import DataClassDictMixin
 from mashumaro.config import BaseConfig, ADD_DIALECT_SUPPORT
+from mashumaro.config import TO_DICT_ADD_OMIT_NONE_FLAG, TO_DICT_ADD_BY_ALIAS_FLAG, ADD_SERIALIZATION_CONTEXT
 from mashumaro.dialect import Dialect
 """
 
@@ -329,18 +389,27 @@ def cls_src(sc: Scenario, c: Cls) -> str:
         bases.append(c.parent.name)
     if c.mixin_here:
         bases.append("DataClassDictMixin")
-    head = f"@dataclass\nclass {c.name}" + (f"({', '.join(bases)})" if bases else "") + ":\n"
+    deco = "@dataclass(kw_only=True)" if sc.wide else "@dataclass"
+    head = f"{deco}\nclass {c.name}" + (f"({', '.join(bases)})" if bases else "") + ":\n"
     body = ""
     for (fn, alias, ft) in c.own_fields:
+        dflt = c.defaults.get(fn)
+        dsrc = None if dflt is None else ("None" if dflt[0] == "none" else repr(dflt[1]))
         if alias:
-            body += f"    {fn}: {py_ty(ft)} = field(metadata={{'alias': {alias!r}}})\n"
+            body += f"    {fn}: {py_ty(ft)} = field(metadata={{'alias': {alias!r}}}" + (f", default={dsrc}" if dsrc is not None else "") + ")\n"
+        elif dsrc is not None:
+            body += f"    {fn}: {py_ty(ft)} = {dsrc}\n"
         else:
             body += f"    {fn}: {py_ty(ft)}\n"
     if c.own_config:
         body += "    class Config(BaseConfig):\n"
         lines = 0
-        if sc.dialect is not None:
-            body += "        code_generation_options = [ADD_DIALECT_SUPPORT]\n"
+        opts = (["ADD_DIALECT_SUPPORT"] if sc.dialect is not None else []) + list(sc.flags)
+        if opts:
+            body += f"        code_generation_options = [{', '.join(opts)}]\n"
+            lines += 1
+        for k, v in c.extra.items():
+            body += f"        {k} = {v}\n"
             lines += 1
         if c.by_alias_own is not None:
             body += f"        serialize_by_alias = {c.by_alias_own}\n"
@@ -354,8 +423,9 @@ def cls_src(sc: Scenario, c: Cls) -> str:
 
 def wrapper_src(sc: Scenario, i: int, t) -> str:
     s = f"@dataclass\nclass W{i}(DataClassDictMixin):\n    f: {py_ty(t)}\n"
-    if sc.dialect is not None:
-        s += "    class Config(BaseConfig):\n        code_generation_options = [ADD_DIALECT_SUPPORT]\n"
+    opts = (["ADD_DIALECT_SUPPORT"] if sc.dialect is not None else []) + list(sc.flags)
+    if opts:
+        s += f"    class Config(BaseConfig):\n        code_generation_options = [{', '.join(opts)}]\n"
     return s
 
 
@@ -365,7 +435,10 @@ def scenario_src(sc: Scenario) -> str:
     s = HEADER
     if sc.dialect is not None:
         if sc.dialect == "unset":
-            s += "class Dl(Dialect):\n    omit_none = False\n\n"
+            s += "class Dl(Dialect):\n    no_copy_collections = (list,)\n\n" if sc.wide else "class Dl(Dialect):\n    omit_none = False\n\n"
+        elif sc.dialect == "strategy":
+            s += ("class Dl(Dialect):\n    serialization_strategy = {date: {'serialize': date.toordinal, "
+                  "'deserialize': date.fromordinal}}\n\n")
         else:
             s += f"class Dl(Dialect):\n    serialize_by_alias = {sc.dialect}\n\n"
     for c in sc.classes:
@@ -451,7 +524,9 @@ def in_universe(v) -> bool:
 
 def classify_exc(e, wrapper_names=()):
     """exception -> ('err', kind, ...) following the reduction used by the Coq model"""
-    from mashumaro.exceptions import InvalidFieldValue, MissingField
+    from mashumaro.exceptions import ExtraKeysError, InvalidFieldValue, MissingField
+    if isinstance(e, ExtraKeysError):
+        return ("err", "extra", ",".join(sorted(map(str, e.extra_keys))), e.target_type.__name__)
     if isinstance(e, MissingField):
         return ("err", "missing", e.field_name, e.holder_class.__name__)
     if isinstance(e, InvalidFieldValue):
@@ -526,7 +601,7 @@ def coq_val(v) -> str:
 
 
 def coq_optb(b) -> str:
-    return "None" if b is None or b == "unset" else ("(Some true)" if b else "(Some false)")
+    return "None" if b is None or b in ("unset", "strategy") else ("(Some true)" if b else "(Some false)")
 
 
 def coq_env(sc: Scenario, has=None) -> str:
